@@ -1081,7 +1081,16 @@ def krome_reset(ctx, pkg, rule="R4"):
                           "decodes the next one", expected=f"{_src(recv)[:60]}.initialize() on every path that reads", found=" and ".join(extra))
                 continue
         ok = len(init_calls) == 1 and bool(reads_lines) and init_calls[0].line < min(reads_lines)
-        ctx.check(ok, rule, f"Network.{mname}:initialize before reading", (NF, fn.lineno), "the format class is initialised before any line is parsed")
+        # a violation needs positive evidence: the one reset call stands after the first parse, or no `.initialize()` is written
+        # anywhere in the module (the call was removed).  A reset that lives elsewhere in the module (a context manager entered by
+        # `with`, a session object) or several reset calls are a shape this rule does not follow
+        elsewhere = any(isinstance(n, ast.Call) and isinstance(n.func, ast.Attribute) and n.func.attr == "initialize" for n in ast.walk(pkg.modules[NF]))
+        if ok or (len(init_calls) == 1 and reads_lines) or (not init_calls and not elsewhere):
+            ctx.check(ok, rule, f"Network.{mname}:initialize before reading", (NF, fn.lineno), "the format class is initialised before any line is parsed")
+        else:
+            ctx.unrec(rule, f"Network.{mname}:initialize before reading", (NF, fn.lineno),
+                      f"found {len(init_calls)} direct initialize() call(s) and {len(reads_lines)} self._add_reaction call(s) in the method" + ("; a reset is written elsewhere in the module" if elsewhere and not init_calls else "")
+                      + ": where the format class is reset relative to the parsing is not understood")
         # ... for EVERY file / string: the only condition it may depend on is that the format class exists
         if len(init_calls) == 1:
             f = init_calls[0]
